@@ -61,7 +61,7 @@ def _alarm(signum, frame):
     raise _Timeout()
 
 
-FUEL_CALLS = 3_000_000  # cobyqa function calls allowed between two evaluations (a whole capped run makes ~1e5)
+FUEL_CALLS = 20_000_000  # line events inside cobyqa allowed between two evaluations (a whole capped run executes ~1e6)
 
 
 def fuel_replay(spec, out):
@@ -86,8 +86,9 @@ def fuel_replay(spec, out):
         fuel.run(go)
         out.label("timeout-but-returned-under-fuel")
     except FuelExhausted:
-        out.fail("C08.f", "minimize does not return: more than %d function calls inside cobyqa without a new "
-                 "evaluation (after %d evaluations)" % (FUEL_CALLS, len(b.log.calls("obj")) or len(b.log.events)))
+        out.fail("C08.f", "minimize does not return: more than %d line events inside cobyqa without a new "
+                 "evaluation (after %d evaluations)" % (FUEL_CALLS, len(b.log.calls("obj")) or len(b.log.events)),
+                 fatal=True)
     except _Timeout:
         out.label("timeout-inconclusive")
     except Exception as exc:  # judged by the normal path of other cases
